@@ -83,6 +83,28 @@ def decodeAll (s : Bytes) : List Res :=
   let (xs, rest) := decodeLoop (s.length + 1) s
   xs ++ (eofLoop (rest.length + 2) rest).1
 
+/-- ONE codec instance whose buffer grows in pieces (what `Framed` does between reads): after every
+piece `decode` until `None`; results in order and the buffer that is left -/
+def chunked : Bytes → List Bytes → List Res × Bytes
+  | buf, [] => ([], buf)
+  | buf, p :: ps =>
+    let r := decodeLoop ((buf ++ p).length + 1) (buf ++ p)
+    let r' := chunked r.2 ps
+    (r.1 ++ r'.1, r'.2)
+
+/-- … and at end of stream `decode_eof` until `None` -/
+def chunkedAll (pieces : List Bytes) : List Res :=
+  (chunked [] pieces).1 ++ (eofLoop ((chunked [] pieces).2.length + 2) (chunked [] pieces).2).1
+
+/-- `decode_eof` until `None` directly on a buffer that may still hold complete lines (`decode` was
+not called on it first) -/
+def eofAll (s : Bytes) : List Res := (eofLoop (s.length + 2) s).1
+
+/-- pieces as before, but the last piece is appended without a `decode` in between: `decode_eof`
+meets the complete lines of the last piece itself -/
+def chunkedEof (pieces : List Bytes) : List Res :=
+  (chunked [] pieces.dropLast).1 ++ eofAll ((chunked [] pieces.dropLast).2 ++ pieces.getLastD [])
+
 /-! ## Independent reference: split, strip, validate -/
 
 /-- split at every LF (`n` LFs give `n + 1` segments, the last one is the unterminated tail) -/
